@@ -104,7 +104,11 @@ def run_property(prop, tier, seed, replay=None):
             with open(cf, 'w') as f:
                 json.dump(w, f)
             cmd += ['--replay-case', cf]
-        p = subprocess.Popen(cmd, env=envv, stdout=subprocess.PIPE, stderr=subprocess.STDOUT, cwd=env.VERIF)
+        # the child's output goes to a file, never to a pipe: the library prints (traces, warnings), and a full pipe that
+        # nobody drains would block the child until the wall-clock watchdog fires
+        logf = open(out + '.log', 'wb')
+        p = subprocess.Popen(cmd, env=envv, stdout=logf, stderr=subprocess.STDOUT, stdin=subprocess.DEVNULL, cwd=env.VERIF)
+        logf.close()
         return (p, job, out, time.time())
 
     while pending or running:
@@ -117,12 +121,19 @@ def run_property(prop, tier, seed, replay=None):
             if rc is None:
                 if time.time() - ts > limit:
                     p.kill()
-                    p.communicate()
+                    p.wait()
                     failures.append('shard %d: wall-clock watchdog (%ds) fired' % (job[0], limit))
                 else:
                     still.append((p, job, out, ts))
                 continue
-            txt = p.communicate()[0].decode('utf8', 'replace')
+            try:
+                with open(out + '.log', 'rb') as lf:
+                    lf.seek(0, 2)
+                    size = lf.tell()
+                    lf.seek(max(0, size - 4000))
+                    txt = lf.read().decode('utf8', 'replace')
+            except OSError:
+                txt = ''
             if rc != 0 or not os.path.exists(out):
                 failures.append('shard %d: exit %s: %s' % (job[0], rc, txt[-2000:]))
                 continue
